@@ -14,6 +14,8 @@ def step02 (t : List String) : String :=
   | ["coinMinus", c, n, v] => (do let c ← c.toInt?; let n ← s2b n; let v ← v.toInt?; let r := coinMinus c n v; pure s!"{r.1} {b2s r.2}").getD "bad-op"
   | ["coinDivideInt64", c, n, k] => (do let c ← c.toInt?; let n ← s2b n; let k ← k.toInt?; pure s!"{coinDivideInt64 c n k}").getD "bad-op"
   | ["coinMultiplyInt64", c, n, k] => (do let c ← c.toInt?; let n ← s2b n; let k ← k.toInt?; pure s!"{coinMultiplyInt64 c n k}").getD "bad-op"
+  | ["coinLessThan", c, v] => (do let c ← c.toInt?; let v ← v.toInt?; pure (b2s (coinLessThan c false v false))).getD "bad-op"
+  | ["coinLessThanEqual", c, v] => (do let c ← c.toInt?; let v ← v.toInt?; pure (b2s (coinLessThanEqual c false v false))).getD "bad-op"
   | _ => "bad-op"
 
 def main : IO Unit := do loop step02 (← IO.getStdin)
